@@ -314,7 +314,7 @@ impl Property for C13 {
     }
     fn budget(&self, tier: Tier) -> u64 {
         match tier {
-            Tier::Quick => 1_500,
+            Tier::Quick => 4_000,
             Tier::Thorough => 150_000,
         }
     }
